@@ -134,15 +134,58 @@ def _snapshot_globals():
             elif isinstance(v, _SIMPLE) and not k.isupper() or k in ("_DEFAULT_TENSORDOT_MODE",):
                 if isinstance(v, _SIMPLE):
                     _PRISTINE[(mname, k)] = ("simple", None, v)
+            # state hidden on classes and functions: class-level containers,
+            # mutable default arguments, function attributes
+            objs = []
+            if isinstance(v, type) and getattr(v, "__module__", None) == mname:
+                objs.append(v)
+                for ck, cv in list(vars(v).items()):
+                    if isinstance(cv, (dict, list, set)) and not ck.startswith("__"):
+                        _PRISTINE[(mname, k, "cls", ck)] = ("attr-container", cv, type(cv)(cv))
+                    f = cv.__func__ if isinstance(cv, (staticmethod, classmethod)) else cv
+                    if isinstance(f, property):
+                        objs.extend(x for x in (f.fget, f.fset) if x is not None)
+                    elif isinstance(f, _types.FunctionType):
+                        objs.append(f)
+            elif isinstance(v, _types.FunctionType) and v.__module__ == mname:
+                objs.append(v)
+            elif hasattr(v, "__wrapped__") and isinstance(getattr(v, "__wrapped__"), _types.FunctionType):
+                objs.append(v.__wrapped__)
+            for f in objs:
+                if not isinstance(f, _types.FunctionType):
+                    continue
+                for i, d in enumerate(f.__defaults__ or ()):
+                    if isinstance(d, (dict, list, set)):
+                        _PRISTINE[(mname, k, f.__qualname__, "default", i)] = (
+                            "attr-container", d, type(d)(d))
+                for dk, d in (f.__kwdefaults__ or {}).items():
+                    if isinstance(d, (dict, list, set)):
+                        _PRISTINE[(mname, k, f.__qualname__, "kwdefault", dk)] = (
+                            "attr-container", d, type(d)(d))
+                if f.__dict__:
+                    _PRISTINE[(mname, k, f.__qualname__, "fdict")] = ("fdict", f, dict(f.__dict__))
 
 
 _snapshot_globals()
 
 
 def restore_globals():
-    for (mname, k), (kind, obj, val) in _PRISTINE.items():
+    for key, (kind, obj, val) in _PRISTINE.items():
+        mname, k = key[0], key[1]
         mod = sys.modules.get(mname)
         if mod is None:
+            continue
+        if kind == "attr-container":
+            if isinstance(obj, (dict, set)):
+                obj.clear()
+                obj.update(val)
+            else:
+                obj[:] = val
+            continue
+        if kind == "fdict":
+            for a in list(obj.__dict__):
+                if a not in val and a != "__wrapped__":
+                    del obj.__dict__[a]
             continue
         if kind == "container":
             cur = getattr(mod, k, None)
